@@ -49,6 +49,8 @@ Theorem C21_operators :
   op_correct (op_zip Tick Tick) zip_tick_spec /\
   op_correct (op_zip Static Static) zip_static_spec /\
   op_correct op_zip_longest (fun _ cur => [vzip_longest (port 0 cur) (port 1 cur)]) /\
+  op_correct op_demux2 (fun _ cur => [map vsnd (filter (fun v => vnum (vfst v) =? 0) (port 0 cur));
+                                      map vsnd (filter (fun v => vnum (vfst v) =? 1) (port 0 cur))]) /\
   (forall p i f, op_correct (op_scan p i f) (scan_spec p i f)) /\
   (forall p, op_correct (op_cross_singleton p) (cross_singleton_spec p)) /\
   (forall p i f, op_correct (op_fold_no_replay p i f) (fold_no_replay_spec p i f)) /\
